@@ -110,7 +110,7 @@ if __name__ == "__main__":
         only = set(sys.argv[3:])
         by = {}
         for bid in sorted(os.listdir(os.path.join(VERIF, "seeded"))):
-            if bid.startswith("B-") and os.path.isdir(os.path.join(VERIF, "seeded", bid)):
+            if bid.startswith(("B-", "B4-")) and os.path.isdir(os.path.join(VERIF, "seeded", bid)):
                 pid = json.load(open(os.path.join(VERIF, "seeded", bid, "meta.json")))["property"]
                 if not only or pid in only:
                     by.setdefault(pid, []).append(bid)
